@@ -616,7 +616,7 @@ impl Property for C20 {
                 Some(i) => i,
                 None => continue,
             };
-            let mut md = Metadata::new();
+            let mut md = if pi % 2 == 0 { Metadata::new() } else { Metadata::default() };
             for f in 0..NFILES {
                 let got = pkg.read_metadata(entry(f));
                 ctx.step("read_metadata", pi as u64, f as u64);
